@@ -554,15 +554,18 @@ func RenderHistory(r *Rand, h *XHistory, plain bool, encrypt func(num uint32, ge
 						d[k] = v
 					}
 					var lenObj uint32
+					ownLength := false // the length is ours and correct
 					if _, has := d["Length"]; has {
 						// the caller controls /Length (possibly wrong on purpose)
 					} else if _, no := d["!NoLength"]; no {
 						delete(d, "!NoLength")
 					} else if lenMode == 1 {
+						ownLength = true
 						lenObj = aux()
 						d["Length"] = XRef{lenObj, 0}
 						deferred = func() { writeObj(lenObj, 0, func() { st.Render(&f, int64(len(stm.Raw))) }) }
 					} else {
+						ownLength = true
 						d["Length"] = int64(len(stm.Raw))
 					}
 					st.Render(&f, d)
@@ -574,7 +577,13 @@ func RenderHistory(r *Rand, h *XHistory, plain bool, encrypt func(num uint32, ge
 						f.WriteString("\r\n")
 					}
 					f.Write(stm.Raw)
-					f.WriteString(st.EOL())
+					if ownLength && !plain && r.Chance(1, 4) {
+						// the end-of-line marker before endstream is a recommendation
+						// (7.3.8.1 "should"); with a correct /Length it may be missing
+						info.Features = append(info.Features, "no-eol-before-endstream")
+					} else {
+						f.WriteString(st.EOL())
+					}
 					f.WriteString("endstream")
 				})
 				if deferred != nil {
